@@ -40,6 +40,6 @@ Proofs/Vhd.vos Proofs/Vhd.vok Proofs/Vhd.required_vos: Proofs/Vhd.v Base/Arith.v
 Props/C04.vo Props/C04.glob Props/C04.v.beautified Props/C04.required_vo: Props/C04.v Base/Plan.vo Base/Table.vo Model/Vhd.vo Proofs/Vhd.vo
 Props/C04.vio: Props/C04.v Base/Plan.vio Base/Table.vio Model/Vhd.vio Proofs/Vhd.vio
 Props/C04.vos Props/C04.vok Props/C04.required_vos: Props/C04.v Base/Plan.vos Base/Table.vos Model/Vhd.vos Proofs/Vhd.vos
-Props/C17.vo Props/C17.glob Props/C17.v.beautified Props/C17.required_vo: Props/C17.v Base/Plan.vo Model/HyperV.vo Spec/HyperV.vo
-Props/C17.vio: Props/C17.v Base/Plan.vio Model/HyperV.vio Spec/HyperV.vio
-Props/C17.vos Props/C17.vok Props/C17.required_vos: Props/C17.v Base/Plan.vos Model/HyperV.vos Spec/HyperV.vos
+Props/C17.vo Props/C17.glob Props/C17.v.beautified Props/C17.required_vo: Props/C17.v Base/Plan.vo Base/Layout.vo Base/Table.vo Model/HyperV.vo Spec/HyperV.vo Proofs/HyperV.vo
+Props/C17.vio: Props/C17.v Base/Plan.vio Base/Layout.vio Base/Table.vio Model/HyperV.vio Spec/HyperV.vio Proofs/HyperV.vio
+Props/C17.vos Props/C17.vok Props/C17.required_vos: Props/C17.v Base/Plan.vos Base/Layout.vos Base/Table.vos Model/HyperV.vos Spec/HyperV.vos Proofs/HyperV.vos
